@@ -787,6 +787,7 @@ class Accumulator:
         self.sep: Optional[str] = None
         self.problem: Optional[str] = None
         self.transformed: List[Tuple[ast.Return, ast.AST]] = []   # returns of strip()/slice/... of the accumulated text
+        self.drops: Optional[ast.AST] = None                      # `res = res + x if <res empty> else x`: earlier text is lost
         self.foreign: List[Tuple[ast.Return, ast.AST]] = []       # returns of something else
         rets = [n for n in walk_no_nested(func.node) if isinstance(n, ast.Return) and n.value is not None]
 
@@ -847,6 +848,11 @@ class Accumulator:
                         and (isinstance(n.value, (ast.ListComp, ast.GeneratorExp)) or (isinstance(n.value, ast.List) and n.value.elts)
                              or (isinstance(n.value, ast.Call) and isinstance(n.value.func, ast.Name) and n.value.func.id in ('list', 'map', 'sorted') and n.value.args)):
                     self.problem = f"the returned collection `{self.name}` starts from `{src(n.value)[:60]}`, not from an empty list / text"
+            # `res = f(res, ..)` in a form emitted() cannot split into "what is appended": never count it as nothing
+            for n in walk_no_nested(func.node):
+                if isinstance(n, ast.Assign) and len(n.targets) == 1 and isinstance(n.targets[0], ast.Name) and n.targets[0].id == self.name \
+                        and mentions_name(n.value, self.name) and self.emitted(n) is None:
+                    self.problem = f"`{src(n)[:70]}` rebuilds the accumulated text in a way the rule cannot split into appended parts"
         else:
             self.problem = "the function does not return one accumulator variable on every path"
 
@@ -863,6 +869,39 @@ class Accumulator:
             if m:
                 return m['x']
             v = node.value
+            if isinstance(v, ast.BinOp) and isinstance(v.op, ast.Add):
+                ps = parts_of(v)
+                if ps and isinstance(ps[0], ast.Name) and ps[0].id == self.name and not any(mentions_name(q, self.name) for q in ps[1:]):
+                    out = ps[1]
+                    for q in ps[2:]:
+                        out = ast.BinOp(left=out, op=ast.Add(), right=q)
+                    return out
+            if isinstance(v, ast.IfExp):
+                # res = res + SEP + X if <res not empty> else X   (the join idiom):  appends (SEP if .. else '') + X
+                R = self.name
+                nonempty = any(match(p_, v.test) for p_ in (f"len({R}) > 0", f"len({R}) != 0", f"len({R}) >= 1", f"{R}", f"{R} != ''", f"0 < len({R})"))
+                isempty = any(match(p_, v.test) for p_ in (f"len({R}) == 0", f"not {R}", f"{R} == ''", f"0 == len({R})"))
+                for withres, plain, pol in ((v.body, v.orelse, True), (v.orelse, v.body, False)):
+                    # the branch that drops the old text must be the one taken while it is still empty
+                    if not ((pol and nonempty) or (not pol and isempty)):
+                        a_, b_ = parts_of(withres), parts_of(plain)
+                        if (nonempty or isempty) and a_ and isinstance(a_[0], ast.Name) and a_[0].id == R \
+                                and not any(mentions_name(q, R) for q in a_[1:] + b_):
+                            self.drops = node       # the old text is thrown away whenever it is NOT empty
+                        continue
+                    a, b = parts_of(withres), parts_of(plain)
+                    if a and b and isinstance(a[0], ast.Name) and a[0].id == self.name and len(a) > len(b) \
+                            and not any(mentions_name(q, self.name) for q in a[1:] + b) \
+                            and all(same(x, y) for x, y in zip(a[len(a) - len(b):], b)):
+                        pre = a[1:len(a) - len(b)]
+                        head = None
+                        for q in pre:
+                            head = q if head is None else ast.BinOp(left=head, op=ast.Add(), right=q)
+                        empty = ast.Constant(value='')
+                        out = ast.IfExp(test=v.test, body=head if pol else empty, orelse=empty if pol else head) if head is not None else None
+                        for q in b:
+                            out = q if out is None else ast.BinOp(left=out, op=ast.Add(), right=q)
+                        return out
             if not mentions_name(v, self.name) and not (const_str(v) == '' or (isinstance(v, ast.List) and not v.elts)) \
                     and not isinstance(v, (ast.List, ast.ListComp)):
                 return v            # initial content of the accumulator (`res = separator`)
